@@ -291,7 +291,13 @@ def _contacts(job):
         for k, (ra, rb) in enumerate(got_pairs):
             ml_a, ml_b = memb["lib"][ra], memb["lib"][rb]
             if not ml_a or not ml_b:
-                R.excl("entry for a pair whose scheme designates no atoms (documentation silent)", nF)
+                if beta is None and np.isfinite(dist[:, k]).any():
+                    # a finite number cannot be "the minimum over the atom pairs the scheme designates" when it
+                    # designates none (the unchanged code raises for such a request; nan/inf would not be judged)
+                    R.viol("contacts|%s|value|min|distance-reported-for-pair-without-designated-atoms" % scheme,
+                           "pair (%d,%d): the scheme designates no atom pair, yet distance %r is returned" % (ra, rb, float(dist[0, k])))
+                else:
+                    R.excl("entry for a pair whose scheme designates no atoms (documentation silent)", nF)
                 continue
             ms_a, ms_b = memb["strict"][ra], memb["strict"][rb]
             for f in range(nF):
